@@ -7,7 +7,7 @@ import (
 
 var urlSchemes = []string{"web+https", "git+http", "x+mailto", "https+x", "svn+ssh", "http.s", "https-x", "shttp", "xhttps", "http", "https", "mailto", "ftp", "javascript", "vbscript", "data", "file", "tel", "x-app", "HTTP", "JaVaScRiPt", "Https", "livescript", "mhtml", "view-source", "ws", "blob", "about", "h.t-t+p", "1http", "ht tp", "http ", ""}
 
-var urlHosts = []string{"example.org", "EXAMPLE.org", "cdn.example.net", "user:pw@example.org", "[::1]", "xn--e1afmkfd.example", "éxample.org", "example.org:8080", "", "127.0.0.1", "a_b.example", "exa mple.org", "example.org.", "%65xample.org", "evil.example"}
+var urlHosts = []string{"[2001:db8::ff]:80", "[2001:db8::ff]", "[::1]:443", "[fe80::1%25eth0]", "example.org:80", "example.org:443", "example.org:", "EXAMPLE.ORG:0080", "example.org", "EXAMPLE.org", "cdn.example.net", "user:pw@example.org", "[::1]", "xn--e1afmkfd.example", "éxample.org", "example.org:8080", "", "127.0.0.1", "a_b.example", "exa mple.org", "example.org.", "%65xample.org", "evil.example"}
 
 var urlPaths = []string{"", "/", "/a/b.png", "/a b", "/a%20b", "/%zz", "/a/../b", "/a;p=1", "/é", "/\x00", "/<script>", "/a\"b", "/a'b", "/a\\b", "//double", "/a:b", "a:b", "rel/path", "./x", "../x", "/ok/file", "/a\tb", "/a\nb"}
 
@@ -23,8 +23,17 @@ var dataURIs = []string{
 }
 
 // HostileURL returns a URL-ish string from the obfuscation families of §2.4.
+// urlSoup: the pieces net/url and browsers disagree about, in any order.
+var urlSoup = []string{"%2f", "%2F", "/", "\\", ".", "..", ":", "@", "?", "#", "[", "]", "é", "%", "%25", "%3a", "a", "b", "//", "%5c", "%2e", "%00", "%20", "+", "&", "=", ";", "~", "'", "\"", "<", "%3f", "%23", "http", "x.png", "1", "%2f%2f", "/%2f", "%2F/", "////", "///"}
+
 func HostileURL(r *rand.Rand) string {
-	switch r.Intn(13) {
+	switch r.Intn(15) {
+	case 13, 14:
+		var b strings.Builder
+		for k := 1 + r.Intn(6); k > 0; k-- {
+			b.WriteString(urlSoup[r.Intn(len(urlSoup))])
+		}
+		return b.String()
 	case 12: // fragment-only and query-only references with bytes no URL may contain
 		return Pick(r, []string{"#\x01", "#a\rb", "#\x7f", "#a\x00b", "#%zz", "#%", "#top\x0b", "?\x01", "?a=\x7f", "#a b", "#\t", "# ", "#a\fb", "?q=\x1b", "#é\x02"})
 	case 0:
@@ -91,7 +100,7 @@ func HostileURL(r *rand.Rand) string {
 	return u
 }
 
-var canonHosts = []string{"example.org", "cdn.example.net", "a.b.example", "example.org:8080", "127.0.0.1"}
+var canonHosts = []string{"[2001:db8::ff]", "[2001:db8::ff]:8080", "example.org", "cdn.example.net", "a.b.example", "example.org:8080", "127.0.0.1"}
 var canonPaths = []string{"", "/", "/a/b.png", "/a%20b", "/ok/file", "/x_y-z.html", "/a;p=1"}
 var canonQueries = []string{"?a=1&amp;amp;amp;b=2", "?x=&amp;amp;lt;", "", "?a=1", "?a=1&b=2", "?q=x%20y", "?a"}
 var canonFrags = []string{"", "#top", "#a-b"}
